@@ -10,7 +10,27 @@ CX = "loky.backend.context"
 ENVVAR = "LOKY_MAX_CPU_COUNT"
 
 
+def helper_roles(e):
+    """The limit helpers by what they read, not by name: affinity = the function calling sched_getaffinity; cgroup = the
+    function naming the cgroup files; user = the function taking the min of both and the environment override."""
+    out = {}
+    for q, f in e.prog.funcs.items():
+        if f.module.name != CX or f.kind == "module":
+            continue
+        src = [norm(n) for n in func_nodes(f) if isinstance(n, (ast.Call, ast.Constant))]
+        if any("sched_getaffinity" in t for t in src):
+            out.setdefault("AFF", []).append(q)
+        if any(isinstance(n, ast.Constant) and isinstance(n.value, str) and n.value.startswith("/sys/fs/cgroup") for n in func_nodes(f)):
+            out.setdefault("CG", []).append(q)
+    for k in ("AFF", "CG"):
+        if len(out.get(k, [])) != 1:
+            raise AnalysisError(f"anchor vanished: the {k} limit helper is not unique ({out.get(k)})")
+    return {k: v[0] for k, v in out.items()}
+
+
 def _leaves(e):
+    roles = helper_roles(e)
+
     def leaves(func, expr, env):
         t = norm(expr)
         if t in ("os.cpu_count() or 1",):
@@ -19,9 +39,9 @@ def _leaves(e):
             return "OS-without-None-guard"
         if isinstance(expr, ast.Call) and isinstance(expr.func, ast.Name):
             qs = e.callees_of(expr)
-            if qs == {f"{CX}:_cpu_count_affinity"}:
+            if qs == {roles["AFF"]}:
                 return "AFF" if _arg_is_os(e, func, expr, env) else "AFF(?)"
-            if qs == {f"{CX}:_cpu_count_cgroup"}:
+            if qs == {roles["CG"]}:
                 return "CG" if _arg_is_os(e, func, expr, env) else "CG(?)"
             if expr.func.id == "int" and len(expr.args) == 1 and isinstance(expr.args[0], ast.Call) and norm(expr.args[0].func) == "os.environ.get":
                 g = expr.args[0]
@@ -74,7 +94,7 @@ def r_cpu_term(e, R):
 
 def r_cpu_helpers(e, R):
     # affinity helper: guarded return set
-    af = e.prog.func(f"{CX}:_cpu_count_affinity")
+    af = e.prog.funcs[helper_roles(e)["AFF"]]
     p = af.params[0]
     rets = [n for n in func_nodes(af) if isinstance(n, ast.Return)]
     allowed = {"len(os.sched_getaffinity(0))", "len(p.cpu_affinity())", p}
@@ -87,7 +107,7 @@ def r_cpu_helpers(e, R):
     R.check(all(isinstance(n.ast, ast.Return) for n in last), "R-CPU-HELPERS", "affinity helper never falls off the end (None would poison min())", af.short, "return",
             "the affinity helper can return None", e.loc(af, af.node))
     # cgroup helper
-    cg = e.prog.func(f"{CX}:_cpu_count_cgroup")
+    cg = e.prog.funcs[helper_roles(e)["CG"]]
     p = cg.params[0]
     g = e.cfg(cg)
     rets = [n for n in g.nodes if n.kind == "stmt" and isinstance(n.ast, ast.Return)]
